@@ -333,13 +333,13 @@ def run_c18_native(tier, seed):
         d = json.loads(p.stdout.decode().strip().split('\n')[-1])
     except Exception as e:
         out['undecided'] = 'probe output unreadable: %s %s' % (e, p.stderr.decode()[-300:]); return out
-    out.update(exhaustive=True, evaluations=d['one_event_batches'] + d['random_batches'] + d['reader_records'] + d['round_trips'] + 1,
-               distinct_nontrivial=d['one_event_batches'] + d['reader_records'] + d['round_trips'],
+    out.update(exhaustive=True, evaluations=d['one_event_batches'] + d['random_batches'] + d.get('length_sweep', 0) + d['reader_records'] + d['round_trips'] + 1,
+               distinct_nontrivial=d['one_event_batches'] + d.get('length_sweep', 0) + d['reader_records'] + d['round_trips'],
                sample=d['sample'], wall_s=round(time.time() - t0, 2),
                explanation=('real DevInputWriter::send / DevInputReader::next over a pipe: every known key code (%d) x press/release as a one-event batch (bytes = zero timeval, EV_KEY, code, value + one all-zero SYN_REPORT): %d cases, '
-                            'complete; the empty batch; %d seeded random batches of up to 39 events (NOT exhaustive); reader on %d foreign/valid records (7 types x 7 values x all known codes and 10 unknown ones) followed by a valid record; '
-                            'round trip writer -> reader for every code: %d') % (d['known_codes'], d['one_event_batches'], d['random_batches'], d['reader_records'], d['round_trips']),
-               bound='one-event batches and reader records: complete over the code domain; batches: random, length < 40')
+                            'complete; the empty batch; %d seeded random batches of up to 39 events (NOT exhaustive); one batch of every length 0..=256 and of 512, 1024, 2000 events, keys cycling through all codes (%d batches: every batch LENGTH up to 256 is covered, batch contents are not); reader on %d foreign/valid records (7 types x 7 values x all known codes and 10 unknown ones) followed by a valid record; '
+                            'round trip writer -> reader for every code: %d') % (d['known_codes'], d['one_event_batches'], d['random_batches'], d.get('length_sweep', 0), d['reader_records'], d['round_trips']),
+               bound='one-event batches and reader records: complete over the code domain; batches: every length 0..=256 plus 512, 1024, 2000 with one content each, and random contents for lengths < 40')
     out['violations'] = len(d['failures'])
     out['violation_list'] = [dict(input=f['input'], what=f['what']) for f in d['failures'][:1]]
     return out
